@@ -79,7 +79,7 @@ def run(ctx):
         if m <= hdr:
             m = hdr + 1
         # the base as the application has it: bare, under an Ethernet header, IPv6 with extension headers before TCP
-        ops.append("impmtu\t%s\t%s\t%d\t%s" % (ver, ",".join(opts), m, r.choice(["", "", "e", "h", "d", "hd", "eh"])))
+        ops.append("impmtu\t%s\t%s\t%d\t%s" % (ver, ",".join(opts), m, r.choice(["", "", "e", "h", "d", "hd", "eh", "f", "f", "t", "ft", "ef", "f2", "hf"])))
     # every single-option base and every position of one MSS among NOPs
     for o in pool:
         for ver in "46":
